@@ -277,7 +277,8 @@ let () =
         else List.iter (fun key ->
             if starts_with (key ^ " rc=") l then
               let v = List.hd (String.split_on_char ' ' (after (key ^ " rc=") l)) in
-              api := (key, int_of_string v) :: !api) ["SETSERVERS"; "SETSORTLIST"; "REINIT"; "SETSOCKFUNCS"]) lines;
+              api := (key, int_of_string v) :: !api) ["SETSERVERS"; "SETSORTLIST"; "REINIT"; "SETSOCKFUNCS"; "SETSERVERSL"; "SETSERVERSP";
+                                                                      "SETSERVERSCSV"; "GETSERVERS"; "GETSERVERSP"; "DUP"]) lines;
       let api = List.rev !api in
       (* the request whose submission call contains the failure: REQ tT .. ALLOCFAIL .. RET tT *)
       let window =
@@ -317,10 +318,17 @@ let () =
                 st = 0 && List.exists (fun (bs, (_, bitems)) -> bs = 0 && bitems <> [] && strict_part items bitems) bcbs
                 && not (List.exists (fun (bs, (_, bitems)) -> bs = 0 && bitems = items) bcbs)) x.cbs in
             let ropt r = match r with Some "void" | Some "v" | None -> None | Some v -> Some (zi (int_of_string v)) in
+            (* a scenario that scripts socket-call failures ("fail sendto 1 ..": the NEXT call
+               fails) has another network once the allocation failure moves the calls: the
+               statuses are then judged for being reported at all (no teardown status, exactly
+               one callback, ledger), not against the baseline *)
+            let scripted = find_sub line "fail " <> None in
+            let base_cbs = List.map (fun (s, _) -> s) bcbs
+                           @ (if scripted then List.filter (fun s -> s <> 16 && s <> 24) (List.map fst x.cbs) else []) in
             { t_id = zi t; t_reqs = nat_of_int x.reqs; t_cb = List.map (fun (s, _) -> zi s) x.cbs;
-              t_ret = ropt x.ret; t_base_cb = List.map (fun (s, _) -> zi s) bcbs;
-              t_base_ret = ropt (Some bret); t_payload_same = same; t_partial = partial;
-              t_after_failure = (t = fresh_token) && (!failline < 0 || !failline < x.req_line) } in
+              t_ret = ropt x.ret; t_base_cb = List.map zi base_cbs;
+              t_base_ret = (if scripted then ropt x.ret else ropt (Some bret)); t_payload_same = same; t_partial = partial;
+              t_after_failure = (not scripted) && (t = fresh_token) && (!failline < 0 || !failline < x.req_line) } in
           (* set-up calls log their status only when they fail, so the failing run may show
              more lines than the baseline: the surplus comes first and is judged against 0 *)
           let extras = max 0 (List.length api - List.length e.e_api) in
